@@ -61,19 +61,26 @@ enum Op {
     /// while still holding that guard, formats an envelope carrying a known value the context has no name
     /// for (a pattern the shipped code supports once the context is initialised)
     HoldRegistryThenFormat,
+    /// one formatting call each: summary of an early-failure response (no id), Display of a successful response,
+    /// summary of a request, summary of an event, Display of an expression
+    EarlyFailureSummary,
+    ResponseDisplay,
+    RequestSummary,
+    EventSummary,
+    ExpressionDisplay,
 }
-const OPS: [Op; 14] = [Op::Format, Op::FormatFlat, Op::TreeFormat, Op::DiagAnnotated, Op::Hex, Op::RegisterTags, Op::ContextRead, Op::KnownValuesLookup, Op::FunctionsLookup, Op::DcborDiag, Op::SharedCodec, Op::RegisterThenUr, Op::CustomTagThenFormat, Op::HoldRegistryThenFormat];
+const OPS: [Op; 19] = [Op::Format, Op::FormatFlat, Op::TreeFormat, Op::DiagAnnotated, Op::Hex, Op::RegisterTags, Op::ContextRead, Op::KnownValuesLookup, Op::FunctionsLookup, Op::DcborDiag, Op::SharedCodec, Op::RegisterThenUr, Op::CustomTagThenFormat, Op::HoldRegistryThenFormat, Op::EarlyFailureSummary, Op::ResponseDisplay, Op::RequestSummary, Op::EventSummary, Op::ExpressionDisplay];
 
 impl Op {
     /// uses the global format context (initialises it on first use)
     fn initialises(&self) -> bool {
-        matches!(self, Op::Format | Op::FormatFlat | Op::TreeFormat | Op::DiagAnnotated | Op::Hex | Op::RegisterTags | Op::ContextRead | Op::RegisterThenUr | Op::CustomTagThenFormat | Op::HoldRegistryThenFormat)
+        matches!(self, Op::Format | Op::FormatFlat | Op::TreeFormat | Op::DiagAnnotated | Op::Hex | Op::RegisterTags | Op::ContextRead | Op::RegisterThenUr | Op::CustomTagThenFormat | Op::HoldRegistryThenFormat | Op::EarlyFailureSummary | Op::ResponseDisplay | Op::RequestSummary | Op::EventSummary | Op::ExpressionDisplay)
     }
     fn registers(&self) -> bool {
         matches!(self, Op::RegisterTags | Op::RegisterThenUr)
     }
     fn formats(&self) -> bool {
-        matches!(self, Op::Format | Op::FormatFlat | Op::TreeFormat | Op::DiagAnnotated | Op::Hex)
+        matches!(self, Op::Format | Op::FormatFlat | Op::TreeFormat | Op::DiagAnnotated | Op::Hex | Op::EarlyFailureSummary | Op::ResponseDisplay | Op::RequestSummary | Op::EventSummary | Op::ExpressionDisplay)
     }
 }
 
@@ -129,6 +136,26 @@ fn run_op(op: Op, e: &Envelope, shared: &Arc<Envelope>) -> String {
             let text = e2.format();
             drop(guard);
             format!("{}|{}", n, text)
+        }
+        Op::EarlyFailureSummary => {
+            use bc_envelope::extension::expressions::{Response, ResponseBehavior};
+            Response::new_early_failure().with_error("no such request").summary()
+        }
+        Op::ResponseDisplay => {
+            use bc_envelope::extension::expressions::{Response, ResponseBehavior};
+            Response::new_success(bc_components::ARID::from_data([7u8; 32])).with_result(Function::from(2u64)).to_string()
+        }
+        Op::RequestSummary => {
+            use bc_envelope::extension::expressions::{ExpressionBehavior, Request, RequestBehavior};
+            Request::new(Function::from(2u64), bc_components::ARID::from_data([9u8; 32])).with_parameter(Parameter::from(1u64), 5).with_note("a note").summary()
+        }
+        Op::EventSummary => {
+            use bc_envelope::extension::expressions::{Event, EventBehavior};
+            Event::<String>::new("happened", bc_components::ARID::from_data([9u8; 32])).with_note("seen").summary()
+        }
+        Op::ExpressionDisplay => {
+            use bc_envelope::extension::expressions::{Expression, ExpressionBehavior};
+            Expression::new(Function::new_named("foo")).with_parameter(Parameter::new_named("bar"), "x").to_string()
         }
         Op::RegisterThenUr => {
             // program-order guarantee: after this thread's own register_tags(), ur_string() works
